@@ -1635,6 +1635,25 @@ class Exec:
                 return R(UNIT)
             st.set(args[0].cell, args[0].path, args[1] if mr.group(1) == 'replace' else bv(0))
             return R(old)
+        if re.match(r'^<ManuallyDrop<GenericArray<T, N>> as Clone>::clone$', c):      # core: ManuallyDrop<T: Clone>::clone = ManuallyDrop::new((**self).clone())
+            a = args[0]
+            inner = a if isinstance(a, ArrRef) else st.get(a.cell, a.path)
+            if isinstance(inner, Arr):
+                inner = ArrRef(inner)
+            return s.call(st, '<GenericArray<T, N> as Clone>::clone', [with_prov(inner, 'shared')], where)
+        if re.match(r'^(?:core::ptr::)?(?:ptr::)?drop_in_place::<\[MaybeUninit<T>\]>$', c):
+            st.events.append('drop_in_place::<[MaybeUninit<T>]> (drops nothing)')
+            return R(UNIT)
+        mdi = re.match(r'^(?:core::ptr::)?(?:ptr::)?drop_in_place::<(GenericArrayIter|ArrayConsumer|ArrayBuilder|IntrusiveArrayBuilder)<.*>>$', c)
+        if mdi and isinstance(args[0], Ref) and ('Drop', mdi.group(1), 'drop') in s.index:
+            return s.run_fn(st, s.pick(s.index[('Drop', mdi.group(1), 'drop')]), [args[0]])
+        mrd = re.search(r'(^|::)read::<(U|B|A|Acc)>$', c)
+        if mrd and isinstance(args[0], Ref):      # bitwise copy of a local that holds a caller value (e.g. an accumulator)
+            return R(st.get(args[0].cell, args[0].path))
+        mwr = re.search(r'(^|::)write::<(U|Acc)>$', c)
+        if mwr and isinstance(args[0], Ref):      # overwrite without dropping the old value
+            st.set(args[0].cell, args[0].path, args[1])
+            return R(UNIT)
         md = re.match(r'^(?:core::)?(?:mem::)?drop::<(.*)>$', c)
         if md:      # mem::drop(value): the type-directed drop glue of the value, here and now
             tmp = st.new_cell(args[0])
